@@ -76,7 +76,9 @@ func checkC18(c *an.Ctx) {
 		}
 		for _, f := range sortedFns(func() map[*ssa.Function]bool {
 			m := map[*ssa.Function]bool{}
-			for f := range p.Reach(roots, func(e an.CallEdge) bool { return an.Outer(e.Callee).Pkg == bp.Pkg && e.Callee != bp && e.Kind == an.EdgeCall }) {
+			for f := range p.Reach(roots, func(e an.CallEdge) bool {
+				return an.Outer(e.Callee).Pkg == bp.Pkg && e.Callee != bp && e.Kind == an.EdgeCall
+			}) {
 				m[f] = true
 			}
 			return m
@@ -294,7 +296,7 @@ func checkC18(c *an.Ctx) {
 				} else {
 					l, _ = src.(*ssa.Lookup)
 				}
-				if l == nil || an.FieldProv(l.X) != "Config.Tasks" {
+				if l == nil || (an.FieldProv(l.X) != "Config.Tasks" && p.DeepFieldProvCallers(l.X) != "Config.Tasks") {
 					continue
 				}
 				// a guard on presence dominates the call
@@ -340,23 +342,17 @@ func checkC18(c *an.Ctx) {
 			}
 			prov := an.FieldProv(garg)
 			if _, isParam := an.Resolve(garg).(*ssa.Parameter); isParam {
-				// follow one level of callers
+				// follow the parameter to the arguments of the callers (through wrappers of cmd/taskctl)
 				okAll := true
-				par := an.Resolve(garg).(*ssa.Parameter)
-				idx := -1
-				for i, q := range site.Parent().Params {
-					if q == par {
-						idx = i
-					}
-				}
-				for _, s2 := range p.CallSitesOf(site.Parent()) {
-					pv := an.FieldProv(s2.Common().Args[idx])
+				srcs := p.DeepSources(garg, 4, true)
+				for _, src := range srcs {
+					pv := an.FieldProv(src)
 					if !strings.HasPrefix(pv, "Config.Pipelines[") {
 						okAll = false
 						prov = pv
 					}
 				}
-				if okAll {
+				if okAll && len(srcs) > 0 {
 					prov = "Config.Pipelines[…]"
 				}
 			}
@@ -517,7 +513,9 @@ func dependsOnValidator(c *an.Ctx, bp *ssa.Function, stageLoop *an.Loop, rule st
 						}
 					}
 				}
-				for f := range p.Reach(roots, func(e an.CallEdge) bool { return an.Outer(e.Callee).Pkg == bp.Pkg && e.Callee != bp && e.Kind == an.EdgeCall }) {
+				for f := range p.Reach(roots, func(e an.CallEdge) bool {
+					return an.Outer(e.Callee).Pkg == bp.Pkg && e.Callee != bp && e.Kind == an.EdgeCall
+				}) {
 					an.EachInstr(f, func(in ssa.Instruction) {
 						if call, ok := in.(*ssa.Call); ok {
 							for _, callee := range p.Callees(&call.Call) {
